@@ -4,14 +4,21 @@ proved: lean/AdeptProofs/Props/C05.lean — for EVERY packet size W > 1, length,
         partition [0,istart) u [istart,iend) u [iend,n), W | iend-istart, istart < W, alignment of every packet access of
         the body (target and leaves, every row), the alignment negotiation over expression trees, the row-padding rule,
         and that the vectorized reduction accumulates every element exactly once (= the scalar fold over a commutative
-        monoid).  Three code sites are false at full strength in their pinned form (F-51, F-52, F-53): proved for the
+        monoid); the `is_vectorizable` trait of EVERY expression node class (census regenerated from the sources by
+        translate/vectrait.py on every run) obeys the rule Node.sound, the model's Expr.vectorizable is the meaning of those
+        declarations, and a statement whose tree contains a non-vectorizable node anywhere (spread along the last dimension,
+        outer_product, pow / abs / comparisons / mixed element types, IndexedArray ...) runs NO packets.  Three code sites are false at full strength in their pinned form (F-51, F-52, F-53): proved for the
         repaired form, as _partial for every form, refuted on witnesses in AdeptProofs/Refute/Simd.lean.
 tie:    hook H2 (RJHOGAN_ADEPT_2_VERIF) records (istartvec, iendvec, packets processed) in the packet loops of
         Array::assign_expression_ (rank 1, rank > 1) and reduce_inactive; harness/drv_simd*.cpp builds the statements on
         sub-views of over-allocated arrays and reports the geometry the library itself holds (addresses, offsets);
         AdeptModel/Simd.lean (driver family `simd`) must predict the three integers EXACTLY, exhaustively over lengths
         0..4W+3 x alignment offsets 0..W-1 of the target and of the operands x contiguous/strided x padded/unpadded
-        rows, per instruction-set build (SSE2, AVX, AVX2+FMA, AVX-512F; -ffp-contract=off), float and double.
+        rows, per instruction-set build (SSE2, AVX, AVX2+FMA, AVX-512F; -ffp-contract=off), float and double; family
+        `nodes` (harness/drv_simd_node.h): statements over spread<d> (first / last dimension, ranks 2 and 3, n around 2W),
+        outer_product, pow, abs, isnan, comparisons, mixed float/double, IndexedArray, transposes, nested dimension reductions,
+        scalar broadcast, where / either_or, alone and nested in element-wise operations, assigned and reduced: directed
+        sweep + random cases per build, same hook comparison (the driver, not the library, says which node is which).
         Which of the pinned/repaired forms the three sites have is read from the sources (small translator below) and
         validated by the same comparison.
 oracle: (logic runs) every element of the result equals a plain scalar loop on exact small-integer data, nothing outside
@@ -23,7 +30,7 @@ explored, NOT proved: lane-wise equality of the intrinsics with the scalar opera
         <= 2 ulp from expl() where the result is a normal number well inside the range, agreement between instruction
         sets, recorded derivative == value.
 """
-import os, re, json, struct, math
+import os, re, json, struct, math, subprocess, sys
 from concurrent.futures import ThreadPoolExecutor
 import vbuild, vcheck
 
@@ -33,7 +40,8 @@ REQUIRED = ["C05_partition_assign", "C05_partition_reduce", "C05_body_aligned_pa
             "C05_reduce_body_aligned", "C05_negotiation_agree", "C05_negotiation_clash", "C05_negotiation_forces_scalar",
             "C05_negotiation_forces_scalar_reduce", "C05_negotiation_vector_taken", "C05_row_padding_rule",
             "C05_row_padding_rows", "C05_row_padding_fresh", "C05_rows_aligned_partial", "C05_rows_aligned",
-            "C05_reduce_split_perm", "C05_reduce_split_value"]
+            "C05_reduce_split_perm", "C05_reduce_split_value", "C05_every_node_vectorizable_trait_sound",
+            "C05_model_nodes_match_census", "C05_nonvectorizable_node_anywhere", "C05_nonvectorizable_runs_no_packets"]
 REFUTE = ["C05_refute_fixed_offset", "C05_refute_fixed_rows", "C05_refute_outer_offsets"]
 
 # name, compiler flags, /proc/cpuinfo flags needed, W(float), W(double)
@@ -43,7 +51,7 @@ ISAS = [("sse2", ["-msse2"], ["sse2"], 4, 2),
         ("avx512f", ["-mavx512f"], ["avx512f"], 16, 8)]
 LIBS = ["Array", "Stack", "StackStorageOrig", "Storage", "jacobian", "settings", "index"]
 DRV = ["drv_simd.cpp", "drv_simd_asg_f.cpp", "drv_simd_asg_d.cpp", "drv_simd_red_f.cpp", "drv_simd_red_d.cpp",
-       "drv_simd_num.cpp"]
+       "drv_simd_node_f.cpp", "drv_simd_node_d.cpp", "drv_simd_num.cpp"]
 ASAN = ["-fsanitize=address", "-fno-omit-frame-pointer"]
 ENV = {"ASAN_OPTIONS": "handle_segv=0:allow_user_segv_handler=1:detect_leaks=0:abort_on_error=0:halt_on_error=1"}
 FUNCS = ["sum", "product", "maxval", "minval", "mean", "norm2"]
@@ -148,7 +156,7 @@ def run_ops(exe, ops, max_deaths=3):
         if len(lines) >= len(ops) - pos:
             break
         k = pos + len(lines)
-        out[k] = "DIED rc=%s %s" % (rc, " ".join(err[-600:].split()))
+        out[k] = "DIED rc=%s %s" % (rc, " ".join((vcheck.san_summary(err) or err[-600:]).split())[:700])
         deaths.append(k)
         pos = k + 1
         if len(deaths) >= max_deaths:
@@ -303,6 +311,94 @@ def gen_probe(T, W):
     return out
 
 
+# ------------------------------------------------------------------ nodes that are not element-wise packet operations
+N1KINDS = ["pow(a,b)", "pow(a,2)", "abs(a-b)", "a+abs(b)", "a<b", "float+double", "a(iv)+b", "a+sum(M,0)", "where=either_or",
+           "where=a+b", "2*a+1", "isnan(a)", "-a+pow(2,b)"]
+N2KINDS = ["spread<1>(u,n)", "spread<0>(v,m)", "spread<1>+B", "spread<0>*B", "outer(u,v)", "outer+B", "2*outer", "A.T()", "A.T()+B",
+           "pow(B,2)", "-spread<1>", "spread<0>+spread<1>", "3*spread<0>-B"]
+N3KINDS = ["spread<0>(M,d0)", "spread<1>(M,d1)", "spread<2>(M,n)"]
+NRKINDS = ["spread<1>", "spread<0>", "outer", "pow(v,2)", "v(iv)", "A.T()", "spread<0>+spread<1>"]
+NFUNCS = ["sum", "maxval", "minval", "mean", "norm2"]
+
+
+def node_kind(op):
+    w = op.split()
+    if w[0] == "nod1":
+        return "rank1 " + N1KINDS[int(w[2])]
+    if w[0] == "nod2":
+        return "rank2 " + N2KINDS[int(w[2])]
+    if w[0] == "nod3":
+        return "rank3 " + N3KINDS[int(w[2])]
+    return "reduce " + NRKINDS[int(w[3])]
+
+
+def gen_nodes(T, W, tier):
+    """directed sweep over the statements whose tree contains a node that is not an element-wise packet operation"""
+    ops = []
+    N = 4 * W + 3
+    offs3 = sorted(set([(0, 0, 0), (1, 1, 1), (W // 2, W // 2, W // 2), (W - 1, W - 1, 0)]))
+    for kind in range(len(N1KINDS)):
+        for n in range(0, N + 1):
+            for (t, k1, k2) in offs3:
+                ops.append("nod1 %s %d %d %d %d %d" % (T, kind, n, t, k1, k2))
+    ns = sorted(set([1, W - 1, W, 2 * W - 1, 2 * W, 2 * W + 1, 3 * W - 1, 3 * W, 4 * W, N]))
+    ms = sorted(set([1, 2, 3, W + 1] + ([2 * W, 2 * W + 1] if tier == "thorough" else [])))
+    for kind in range(len(N2KINDS)):
+        for m in ms:
+            for n in ns:
+                tg = [(0, 0, 0), (0, 0, 1)] + [(k, pal(k + n, W) + d, kk) for (k, d) in ((1, 0), (W - 1, 1)) for kk in (k, (k + 1) % W)]
+                tg = sorted(set(tg))
+                for (tk, tP, k) in tg:
+                    ops.append("nod2 %s %d %d %d %d,%d %d,1 %d,1" % (T, kind, m, n, tk, tP, k, k))
+                if n in (2 * W, 2 * W + 1):     # strided vector arguments: never on the packet path
+                    ops.append("nod2 %s %d %d %d 0,0 0,2 0,1" % (T, kind, m, n))
+                    ops.append("nod2 %s %d %d %d 0,0 0,1 0,2" % (T, kind, m, n))
+    for kind in range(len(N3KINDS)):
+        for (d0, d1) in ((2, 3), (3, 2)):
+            for n in range(1, N + 1):
+                for kt in (0, 1):
+                    ops.append("nod3 %s %d %d %d %d %d" % (T, kind, d0, d1, n, kt))
+    for func in NFUNCS:
+        for kind in range(len(NRKINDS)):
+            for m in (1, 2, 3):
+                for n in sorted(set([1, W, 2 * W - 1, 2 * W, 2 * W + 1, 3 * W, N])):
+                    for k in sorted(set([0, 1, W - 1])):
+                        ops.append("nodr %s %s %d %d %d %d,1 %d,1" % (T, func, kind, m, n, k, k))
+                    if n == 2 * W + 1:
+                        ops.append("nodr %s %s %d %d %d 0,2 0,2" % (T, func, kind, m, n))
+    return ops
+
+
+def gen_nodes_random(rng, T, W, count):
+    ops = []
+    N = 4 * W + 3
+    for _ in range(count):
+        fam = rng.choice(["nod1", "nod2", "nod2", "nod3", "nodr"])
+        k = lambda: rng.randrange(W)
+        st = lambda: rng.choice([1, 1, 1, 1, 2, 3])
+        n = rng.choice([rng.randrange(1, N + 1), rng.randrange(2 * W - 1, 2 * W + 2), rng.randrange(1, 6 * W)])
+        if fam == "nod1":
+            ops.append("nod1 %s %d %d %d %d %d" % (T, rng.randrange(len(N1KINDS)), rng.randrange(0, N + 1), k(), k(), k()))
+        elif fam == "nod2":
+            tk = k()
+            tP = rng.choice([0, pal(tk + n, W), pal(tk + n, W) + 1, pal(tk + n, W) + W])
+            ops.append("nod2 %s %d %d %d %d,%d %d,%d %d,%d" % (T, rng.randrange(len(N2KINDS)), rng.randrange(1, W + 3), n, tk, tP,
+                                                               k(), st(), k(), st()))
+        elif fam == "nod3":
+            ops.append("nod3 %s %d %d %d %d %d" % (T, rng.randrange(3), rng.randrange(1, 5), rng.randrange(1, 5), min(n, 200), rng.randrange(2)))
+        else:
+            ops.append("nodr %s %s %d %d %d %d,%d %d,%d" % (T, rng.choice(NFUNCS), rng.randrange(len(NRKINDS)), rng.randrange(1, 4),
+                                                          min(n, N), k(), st(), k(), st()))
+    return ops
+
+
+def run_translator():
+    """regenerate the census of the is_vectorizable trait from the working tree -> (returncode, message)"""
+    tr = subprocess.run([sys.executable, os.path.join(vbuild.VERIF, "translate", "vectrait.py")], stdout=subprocess.PIPE,
+                        stderr=subprocess.STDOUT, text=True, env=dict(os.environ, VERIF_REPO=vbuild.REPO))
+    return tr.returncode, tr.stdout.strip()
+
+
 def model_line(g, bits):
     w = g.split()
     if w[0] in ("asg", "red"):
@@ -321,13 +417,16 @@ def expected_site(g, vec):
 
 def judge_logic(label, exe, ops, bits, W_of):
     """run ops on one build; returns dict(cases, vec, packets, corr=[mismatch dicts], fail=[oracle failure dicts])"""
-    res = {"cases": 0, "vec": 0, "packets": 0, "corr": [], "fail": [], "nontrivial": set()}
+    res = {"cases": 0, "vec": 0, "packets": 0, "corr": [], "fail": [], "nontrivial": set(), "ops_by": {}}
     out = run_ops(exe, ops)
     parsed, mlines, midx = [], [], []
     for i, (op, line) in enumerate(zip(ops, out)):
         if line is None:
             continue
         res["cases"] += 1
+        if op.startswith("nod"):
+            kd = node_kind(op)
+            res["ops_by"][kd] = res["ops_by"].get(kd, 0) + 1
         if not line.startswith("G "):
             res["fail"].append({"op": op, "line": line, "why": "driver did not answer (%s)" % line[:200]})
             parsed.append(None)
@@ -656,14 +755,38 @@ def report_fail(ctx, label, fam, f, sig=None, tag="v"):
 
 
 def run(ctx, replay):
+    """A run against a tree other than /repo (a seeded change) that was not given a private Lean project (VERIF_LEAN) would leave the
+    census of THAT tree in the shared lean/AdeptModel/Generated: put the previous table back when the run is over."""
+    gen = os.path.join(vcheck.LEAN, "AdeptModel", "Generated", "VecTraits.lean")
+    shared = "VERIF_LEAN" not in os.environ and os.path.realpath(vbuild.REPO) != "/repo"
+    before = open(gen).read() if shared and os.path.exists(gen) else None
+    try:
+        return run_(ctx, replay)
+    finally:
+        if before is not None and open(gen).read() != before:
+            tmp = gen + ".tmp%d" % os.getpid()
+            open(tmp, "w").write(before)
+            os.replace(tmp, gen)
+
+
+def run_(ctx, replay):
+    # regenerate the census of the is_vectorizable trait (every class deriving from Expression<>) from the working tree
+    trc, trmsg = run_translator()
+    ctx.notes["translator"] = trmsg[-1500:]
     thms, ref = theorem_lists()
     fails = vcheck.lean_gate(ctx, ["AdeptProofs.Props.C05", "AdeptProofs.Refute.Simd"], thms + ref,
                              required=[NS + r for r in REQUIRED + REFUTE])
+    if trc != 0:
+        fails.insert(0, "translator translate/vectrait.py failed: " + trmsg[-1200:])
+        ctx.cov["discharged"] = 0
+    elif "UNSOUND trait" in trmsg and fails:
+        fails.insert(0, "census of the is_vectorizable trait: " + " | ".join(l.strip() for l in trmsg.split("\n") if "UNSOUND" in l)[:1200])
     ctx.cov["exhaustive"] = False
     ctx.notes["explanation"] = (
         "other = proof + exploration. PROVED in Lean for every packet size, length, address and expression tree: loop partition, "
-        "alignment of every packet access, alignment negotiation, row-padding rule, reduction accumulates each element exactly once "
-        "(theorems listed under 'theorems'); tied to the C++ by exact comparison of the hook counters (istartvec, iendvec, packets) "
+        "alignment of every packet access, alignment negotiation, row-padding rule, reduction accumulates each element exactly once, "
+        "the is_vectorizable trait of every expression node class obeys its rule (census regenerated from the sources) and a tree "
+        "with a non-vectorizable node anywhere runs no packets (theorems listed under 'theorems'); tied to the C++ by exact comparison of the hook counters (istartvec, iendvec, packets) "
         "with the model on an exhaustive enumeration per instruction-set build. EXPLORED, not proved: that packet operations equal "
         "the scalar operations lane by lane, all rounding statements, fastexp accuracy (sampling; counts below).")
     cfg, bodies = detect_cfg()
@@ -706,7 +829,9 @@ def run(ctx, replay):
         return run_replay(ctx, json.load(open(replay)), isas, bits, fails)
 
     exes = build_all(isas, True)
-    stats = {"logic": {}, "numerics": {}, "reductions": {}, "fastexp": {}}
+    stats = {"logic": {}, "nodes": {}, "numerics": {}, "reductions": {}, "fastexp": {}}
+    nrand = 120 if ctx.tier == "quick" else 1500
+    node_random = {(i[0], T): gen_nodes_random(ctx.rng, T, {"f": i[3], "d": i[4]}[T], nrand) for i in isas for T in "fd"}
     num_ops, rnum_ops, fx_ops = gen_numerics(ctx.rng, ctx.tier), gen_rnum(ctx.rng, ctx.tier), gen_fexp(ctx.rng, ctx.tier)
     ref_num = run_ops(exes["scalar"], num_ops)
     ref_rnum = run_ops(exes["scalar"], rnum_ops)
@@ -717,7 +842,7 @@ def run(ctx, replay):
     def work(isa):
         name, _, _, Wf, Wd = isa
         W_of = {"f": Wf, "d": Wd}
-        r = {"name": name, "logic": [], "probe": [], "W": W_of}
+        r = {"name": name, "logic": [], "probe": [], "nodes": [], "W": W_of}
         exe = exes["isa:" + name]
         r["info"] = run_ops(exe, ["info"])[0]
         for T in "fd":
@@ -726,6 +851,8 @@ def run(ctx, replay):
             pr = gen_probe(T, W_of[T])
             jr = judge_logic(name, exe, [p[0] for p in pr], bits, W_of)
             r["probe"].append((T, jr, dict(pr)))
+            nops = gen_nodes(T, W_of[T], ctx.tier)
+            r["nodes"].append((T, len(nops), judge_logic(name, exe, nops + node_random[(name, T)], bits, W_of)))
         st = {"statements": 0, "elements": 0, "statements_on_packet_path": 0, "nan_payload_or_sign_differs": 0, "zero_sign_differs": {}}
         r["num_fail"] = judge_numerics(name, num_ops, run_ops(exe, num_ops), ref_num, W_of, st)
         r["num_stats"] = st
@@ -779,6 +906,24 @@ def run(ctx, replay):
                 report_fail(ctx, name, "probe", f, sig=sig)
             for c in j["corr"]:
                 pending.append((name, c))
+        ns_ = {"cases": 0, "directed": 0, "random": 0, "cases_with_packets": 0, "packets": 0, "vector_branch_entered": 0, "by_kind": {}}
+        for T, ndir, j in r["nodes"]:
+            ns_["cases"] += j["cases"]; ns_["directed"] += ndir; ns_["random"] += j["cases"] - min(ndir, j["cases"])
+            ns_["cases_with_packets"] += len(j["nontrivial"]); ns_["packets"] += j["packets"]; ns_["vector_branch_entered"] += j["vec"]
+            for op, cnt in j.get("ops_by", {}).items():
+                ns_["by_kind"][op] = ns_["by_kind"].get(op, 0) + cnt
+            ctx.cov["evaluations"] += j["cases"]
+            ctx.cov["distinct_nontrivial"] += j["cases"]     # every case of this family has a node that is not element-wise
+            ctx.cov["traces_validated_against_impl"] += j["cases"]
+            for f in j["fail"][:2]:
+                report_fail(ctx, name, "nodes", f)
+            for c in j["corr"]:
+                pending.append((name, c))
+            if j["cases"] and not j["nontrivial"]:
+                ctx.violation("build %s, type %s: no statement of the node family (spread along the first dimension, nested "
+                              "reductions, scalar broadcast) took the packet path in %d cases" % (name, T, j["cases"]),
+                              {"kind": "coverage", "build": name}, tag="c", no_input=True)
+        stats["nodes"][name] = ns_
         stats["logic"][name] = ls
         stats["numerics"][name] = r["num_stats"]
         stats["reductions"][name] = r["rnum_stats"]
@@ -799,6 +944,10 @@ def run(ctx, replay):
     ctx.cov["samples"] = [{"format": "driver op -> G <geometry the library reports = model input> | H <hook H2 counters> | R <oracle>; "
                                      "asg1 <type> <shape> <n> <target offset,stride> <operand offset,stride>...",
                            "example": "asg1 f 0 19 3,1 3,1 3,1 0,1 = float, tgt = a + b, 19 elements, all three views 3 past a boundary"}]
+    ctx.cov["samples"].append({"format": "nod2 <type> <kind> <m> <n> <target offset,pitch> <u offset,stride> <v offset,stride> (kinds: "
+                               + ", ".join("%d %s" % kv for kv in enumerate(N2KINDS)) + ")",
+                               "example": "nod2 f 0 3 9 0,0 1,1 1,1 = float, tgt(3x9, fresh) = spread<1>(u,9): model line 'asg 4 <cfg> T:.. SPL A:..' "
+                                          "-> vec=0 is=0 ie=0 pk=0, hook silent, every element equals u(i)"})
     for r in results:
         for T, j in r["logic"]:
             ctx.cov["samples"] += [{"build": r["name"], "op": op} for op in sorted(j["nontrivial"])[:1]]
@@ -810,6 +959,13 @@ def run(ctx, replay):
         "over fresh (library-padded) arrays and column sub-views with aligned / unaligned row pitch, rank-3 fresh / contiguous / permuted, "
         "FixedArray leaves at every address residue, six reductions over ranks 1 and 2, the packing rule for ranks 2 and 3; a case is "
         "non-trivial if at least one packet was processed (hook counter), distinct = different (build, statement). "
+        "NODES (directed + random, per build and element type; every case non-trivial: its tree contains a node that is not an "
+        "element-wise packet operation): rank 1 x 13 kinds (pow, pow-scalar, abs, comparison, isnan, float+double, IndexedArray, nested "
+        "sum(M,0), where/either_or, scalar broadcast) x every length 0..4W+3 x 4 offset triples; rank 2 x 13 kinds (spread<1> = last "
+        "dimension, spread<0>, outer_product, transposes, alone and nested in element-wise operations) x rows {1,2,3,W+1} x row length "
+        "{1,W-1,W,2W-1,2W,2W+1,3W-1,3W,4W,4W+3} x fresh / offset column-view targets x vector offsets, strided vectors; rank 3 "
+        "spread<0|1|2>(matrix) x every n 1..4W+3; 5 reductions x 7 kinds; plus random cases (kind, lengths around 2W and up to 6W, "
+        "offsets 0..W-1, strides 1..3) drawn from the run's seed; counts per kind in notes.families.nodes.<build>.by_kind. "
         "NUMERICS (exploration): 12 expression shapes x 6 value classes (grid of special finite values incl. +-0, subnormals, extremes; "
         "random bit patterns; moderate; cancelling a*b+c; tiny; huge), bitwise against the scalar build; 6 reductions against "
         "n*eps*sum|x|; fastexp on every binade, +-3 ulp around every k*ln2/2, range ends, random.")
@@ -836,7 +992,7 @@ def run_replay(ctx, r, isas, bits, fails):
         finish(ctx, pending, fails)
         return
     W_of = {"f": isa[3], "d": isa[4]} if isa else {}
-    if kind in ("logic", "probe", "correspondence"):
+    if kind in ("logic", "probe", "nodes", "correspondence"):
         exes = build_all([isa], True, want_fx=False, want_scalar=False)
         j = judge_logic(label, exes["isa:" + label], [op], bits, W_of)
         ctx.cov["evaluations"] += j["cases"]
